@@ -38,4 +38,7 @@ OBLIGATIONS = [
         desc="BucketWriter.__init__ / write (two out-of-order writes) / close killed after c of the ~10 calls, then restart "
              "(StorageServer._clean_incomplete, get_shares): incoming/ is discarded; the share is either absent or visible with the "
              "full length, the written bytes (probe) and its lease"),
+    chx("delete_sibling", "C29_h", "h_delete_sibling", bounds=BD, timeout=T,
+        desc="StorageServer._evaluate_write_vectors deleting one or two of the 2..3 mutable shares of a slot (new_length == 0), killed "
+             "after c calls or completing: the share the request does not name keeps its container, data (probe) and all leases"),
 ]
